@@ -9,4 +9,6 @@ import SodiumVerif.Spec.Script
 import SodiumVerif.Model.Txn
 import SodiumVerif.Model.TxnScript
 import SodiumVerif.Model.Lazy
+import SodiumVerif.Model.LazyHeap
+import SodiumVerif.Model.LazyScript
 import SodiumVerif.Model.Conc
